@@ -114,6 +114,13 @@ def oracle(ctx, case, run, edges):
                 if o['out'] != 'Rejected' or not same or o['hops']:
                     return ('reject-not-pure', {'trigger': t, 'state': prev['st']},
                             '%s fired in %s: outcome %s, state changed: %s' % (t, prev['st'], o['out'], not same))
+        if ev[0] == 'Done' and o['out'] != 'Noop' and not o['pending'] and o['st'] in ('running', 'gitting') \
+                and o['tr'] != 'active':
+            # the last outstanding background step has completed and the
+            # machine stands in a rest state: it must be at rest there
+            return ('not-at-rest', {'state': o['st'], 'transitioning': o['tr']},
+                    'event %d: every background step has completed, the pipeline is in %s but '
+                    'transitioning is %s (outcome of the completion: %s)' % (i, o['st'], o['tr'], o['out']))
         if o['active'] != (o['st'] == 'running' and o['tr'] == 'active'):
             return ('active-predicate', {}, 'is_pipeline_active() = %s in %s/%s' % (o['active'], o['st'], o['tr']))
         prev = o
